@@ -583,12 +583,15 @@ def _run_case(case, obs):
     perm, gx, best, second = match_columns(Cx, Lrot[:px])
     is_perm = len(set(perm.tolist())) == k
     tgc = dict(op="components", symptom="components_ne_rotated_loadings")
-    obs.check("components_match_rotated_loadings", is_perm and bool(np.all(best >= 1 - 1e-9)), f"perm {perm.tolist()} |cos| {best.tolist()}", tags=tgc)
-    if not (is_perm and np.all(best >= 1 - 1e-9)):
-        return
     if np.any(second >= 1 - 1e-7):
+        # two captured loading columns are parallel to working precision (an oblique rotation of loadings that are
+        # dominated by one direction, e.g. the mean of an uncentred field): the assignment of public components to
+        # captured columns is not unique, nothing below can be decided
         obs.count("match_ambiguous")
         obs.note("match_ambiguous", second.tolist())
+        return
+    obs.check("components_match_rotated_loadings", is_perm and bool(np.all(best >= 1 - 1e-9)), f"perm {perm.tolist()} |cos| {best.tolist()}", tags=tgc)
+    if not (is_perm and np.all(best >= 1 - 1e-9)):
         return
     obs.count("matched")
     obs.note("perm", perm.tolist())
